@@ -51,6 +51,9 @@ def term_templates():
         "Negative": lambda T, O: Negative(F(T)),
         "Function.arg": lambda T, O: fn.Coalesce(F(O, "o"), F(T)),
         "Function.nested": lambda T, O: fn.Upper(fn.Concat(F(T), "x")),
+        "Function.star": lambda T, O: fn.Count(P.terms.Star(T)) + F(O, "o"),
+        "Function.star_nested": lambda T, O: fn.Coalesce(fn.Count(P.terms.Star(T)), F(O, "o")),
+        "Function.field_and_star": lambda T, O: P.terms.Function("F2", F(T), P.terms.Star(T)),
         "AggregateFunction.arg": lambda T, O: fn.Sum(F(T)),
         "AggregateFunction.filter": lambda T, O: fn.Sum(F(O, "o")).filter(F(T) == 1),
         "AnalyticFunction.arg": lambda T, O: an.Sum(F(T)).over(F(O, "o")),
